@@ -12,10 +12,10 @@ cp "$src/demo.py" "$wt/_demo.py"
 if ! git -C "$wt" apply "$src/patch.diff"; then echo "$sid: PATCH DOES NOT APPLY"; git -C /repo worktree remove --force "$wt"; rm -f "$wt".*.out; exit 9; fi
 ( cd "$wt" && PYTHONPATH="$wt/Lib" PYTHONDONTWRITEBYTECODE=1 timeout 600 /venv/bin/python _demo.py > "$wt.mut.out" 2>&1 ); mut_rc=$?
 rm -f "$wt/_demo.py"
-tests="$( cd "$wt" && PYTHONPATH="$wt/Lib" /venv/bin/python -m pytest -q -p no:cacheprovider --timeout=900 Tests -n ${CONFIRM_N:-8} 2>&1 | tail -1 )"
+if [ -n "${CONFIRM_TESTS:-}" ]; then tests="$CONFIRM_TESTS"; else tests="$( cd "$wt" && PYTHONPATH="$wt/Lib" /venv/bin/python -m pytest -q -p no:cacheprovider --timeout=900 Tests -n ${CONFIRM_N:-8} 2>&1 | tail -1 )"; fi
 git -C /repo worktree remove --force "$wt"
 echo "$sid: demo clean rc=$clean_rc, demo mutated rc=$mut_rc, tests: $tests"
-case "$tests" in *failed*|*error*) ok=0;; *"4704 passed"*) ok=1;; *) ok=0;; esac
+if echo "$tests" | grep -Eq '(^|[ ,])[0-9]+ (failed|errors?)'; then ok=0; else case "$tests" in *"4704 passed"*) ok=1;; *) ok=0;; esac; fi
 if [ "$clean_rc" = 0 ] && [ "$mut_rc" != 0 ] && [ "$mut_rc" != 124 ] && [ "$ok" = 1 ]; then
   d="$here/seeded/$sid"; mkdir -p "$d"
   cp "$src/patch.diff" "$d/patch.diff"; cp "$src/demo.py" "$d/demo.py"; [ -f "$src/notes.md" ] && cp "$src/notes.md" "$d/notes.md"
